@@ -48,6 +48,8 @@ STRENGTHENED = {
     'C13_8': 'caught by C09 (translator) from the start; C13 itself then extended: the same list object for two arguments / reused across calls, tuple and (int) ndarray arguments, caller arguments compared afterwards',
     'C14_8': 'caught by C08, C10 and C12 from the start; C14 itself then extended: volume loft of surface sections periodic in v (and u) with mixed periodic continuity, periodic vs open',
     'C19_8': '=not a C19 check (sub-tolerance knot spans are collapsed by the constructor before any file is written); caught by C10: first through the translator obligation only, then with failing inputs after accepted vectors with positive spans below the tolerance were added',
+    'C05_9': '=caught, but without a failing input (translator obligation for BSplineBasis.raise_order only); generator then extended: bases whose repeated interior knot has copies one ulp apart (round-off twins), with a tolerance-aware comparison of the lowered knot vector for exactly those cases',
+    'C17_9': '=the check crashed (exit 2, no verdict): the mutated Orientation.compute raised a numpy broadcast ValueError under BSplineBasis.matches; the harness now attributes exceptions to the innermost library-or-harness frame (third-party frames skipped) and the C17 oracle reports any exception other than OrientationError from Orientation.compute as a failing input',
     'C16_3': '=caught, but without a failing input; oracle then extended: volumes with mixed orders (p,q,p) and full-degree nets; independent high-order quadrature oracle',
 }
 dm = os.path.join(V, 'DESIGN.md')
